@@ -1456,6 +1456,7 @@ def defaults_case(gl: GLang, e, decl, nums: int, strings) -> list[dict]:
     m = len(decl)
     fails = []
     tl = tree_leaves(e)
+    nums = max([nums, m] + [leaf[1] for leaf in tl if leaf[0] == "num"])
     for s in strings:
         ins_a = mk_inputs(gl, decl)
         ins_b = mk_inputs(gl, decl) + [E.Source() for _ in range(m, nums)]
@@ -1785,11 +1786,14 @@ def main(tier: str, seed: int, replay: str | None = None) -> int:
             e0, _ = tg.tree(rng.choice([2, 3, 3, 4]))
             nums = rng.randint(1, 4)
             e = numberize(rng, gl, e0, nums)
-            m = rng.randint(0, nums - 1)           # numbers 1..m are supplied, m+1..nums are not
             cnt = {}
             for leaf in tree_leaves(e):
                 if leaf[0] == "num":
                     cnt[leaf[1]] = cnt.get(leaf[1], 0) + 1
+            # the numbers are those of the TREE (the generated tree may already have had
+            # numbered inputs beyond the ones numberize introduced)
+            nums = max([nums] + list(cnt))
+            m = rng.randint(0, nums - 1)           # numbers 1..m are supplied, m+1..nums are not
             rep_uns = [n for n, c in cnt.items() if n > m and c >= 2]
             if tree_size(e) > 40 or not cnt or (not rep_uns and rng.random() < 0.85):
                 continue
